@@ -18,7 +18,7 @@ import (
 
 // AuthOpts configures a real sso-auth.
 type AuthOpts struct {
-	Provider     string   // google | okta
+	Provider     string   // google | okta | cognito
 	Slug         string   // provider slug (default "idp")
 	Host         string   // server.host (default "sso-auth.root.test")
 	Scheme       string   // server.scheme forced onto code redirects (default "http")
@@ -103,6 +103,12 @@ func NewAuth(o AuthOpts, idp *FakeIdP) (*Auth, error) {
 	if o.Provider == "okta" {
 		pc.OktaProviderConfig = auth.OktaProviderConfig{OrgURL: idp.Host(), ServerID: "srv"}
 	}
+	if o.Provider == "cognito" {
+		// the AWS SDK client behind the group lookups is built from static credentials (no network); only the
+		// OAuth endpoints (token, userInfo) are used by the fixtures
+		pc.AmazonCognitoProviderConfig = auth.AmazonCognitoProviderConfig{OrgURL: idp.Host(), UserPoolID: "us-east-1_fixture", Region: "us-east-1",
+			Credentials: auth.CognitoCredentials{ID: "AKIAFIXTURE", Secret: "fixture-secret"}}
+	}
 	cfg.ProviderConfigs = map[string]auth.ProviderConfig{o.Slug: pc}
 	cfg.ClientConfigs = map[string]auth.ClientConfig{"proxy": {ID: o.ProxyID, Secret: o.ProxySecret}}
 	cfg.AuthorizeConfig.ProxyConfig.Domains = o.RootDomains
@@ -149,6 +155,10 @@ func NewAuth(o AuthOpts, idp *FakeIdP) (*Auth, error) {
 		p.SignInURL, p.RedeemURL, p.RevokeURL, p.ValidateURL = u("/g/auth"), u("/g/token"), u("/g/revoke"), u("/g/tokeninfo")
 	case *providers.OktaProvider:
 		for _, x := range []*url.URL{p.SignInURL, p.RedeemURL, p.RevokeURL, p.ProfileURL, p.ValidateURL} {
+			x.Scheme = "http"
+		}
+	case *providers.AmazonCognitoProvider:
+		for _, x := range []*url.URL{p.SignInURL, p.RedeemURL, p.ProfileURL, p.ValidateURL} {
 			x.Scheme = "http"
 		}
 	default:
